@@ -37,7 +37,7 @@ class Check(FormulaCheck):
 
     def plan(self, tier, seed):
         q = tier == 'quick'
-        specs = [{'campaign': 'sentinels'}, {'campaign': 'slots'}, {'campaign': 'percent', 'lo': 0, 'hi': 10001}]
+        specs = [{'campaign': 'sentinels'}, {'campaign': 'slots', 'seed': seed}, {'campaign': 'percent', 'lo': 0, 'hi': 10001}]
         for i in range(16):
             specs.append({'campaign': 'literals', 'seed': seed, 'n': 1500 if q else 30000, 'i': i})
             specs.append({'campaign': 'strings', 'seed': seed, 'n': 1200 if q else 25000, 'i': i})
@@ -264,6 +264,32 @@ class Check(FormulaCheck):
                     if table[(pattern, other)] != acc:
                         rec.violation('C05/slots:separators-disagree-on-acceptance', pattern=pattern, comma=acc, other=other, other_accepts=table[(pattern, other)])
         rec.count('slot_patterns_tried', len(table))
+        # the same law with every kind of value in a slot - also list-valued ones (array literals of either layout, a range the host
+        # answers with a list, a function returning a list): one argument per slot whatever the separator, however many slots
+        import random
+        rnd = random.Random('slots:%s' % spec.get('seed', 0))
+        self.e.p.set_function('LST', lambda: [8, 9])
+        kinds = [('1', 1), ('"b"', 'b'), ('{5,6}', [5, 6]), ('{7;8}', [7, 8]), ('{1,2;3,4}', [[1, 2], [3, 4]]), ('A1:B2', [1, 2, 3]), ('LST()', [8, 9]), ('xa', G.VARS['xa']),
+                 ('{5}', [5]), ('(1+2)', 3), ('', None)]
+        for _ in range(1500):
+            n = rnd.randint(1, 5)
+            slots = [rnd.choice(kinds) for _ in range(n)]
+            if all(t == '' for t, _ in slots):
+                continue
+            expected = canon([v for _, v in slots])
+            outcomes = {}
+            for sep in SEPS:
+                f = 'REC(' + sep.join(t for t, _ in slots) + ')'
+                r, log = self.run_logged(f)
+                rec.case()
+                recs = [e for e in log if e[0] == 'REC']
+                outcomes[sep] = (r['error'], recs[0][1] if len(recs) == 1 else None)
+                if r['error'] is None:
+                    if not (len(recs) == 1 and recs[0][1] == expected and r['result'] == n):
+                        rec.violation('C05/slots:accepted-call-passes-wrong-arguments:list-valued-arguments', formula=f, recorded=recs, expected=expected)
+                    rec.nt(f)
+            if len(set(map(repr, outcomes.values()))) != 1:
+                rec.violation('C05/slots:separator-choice-changes-the-arguments', slots=[t for t, _ in slots], outcomes=outcomes)
         rec.sample({'formula': 'REC(1,,3.5)', 'expected_slots': '[1, None, 3.5]'})
 
     # ------------------------------------------------------------------ arrays
